@@ -1568,6 +1568,32 @@ impl IdmServerProxyWriteTransaction<'_> {
         }
         */
 
+        // The account may have expired, or may not be valid yet, since the code was issued.
+        let account_entry = self
+            .qs_write
+            .internal_search_uuid(code_xchg.account_uuid)
+            .map_err(|err| {
+                admin_error!(?err, "Unable to load the account of this authorisation code");
+                Oauth2Error::ServerError(err)
+            })?;
+
+        let within_valid_window = Account::check_within_valid_time(
+            ct,
+            account_entry
+                .get_ava_single_datetime(Attribute::AccountValidFrom)
+                .as_ref(),
+            account_entry
+                .get_ava_single_datetime(Attribute::AccountExpire)
+                .as_ref(),
+        );
+
+        if !within_valid_window {
+            security_info!(
+                "Account has expired or is not yet valid, not allowing the code exchange to proceed"
+            );
+            return Err(Oauth2Error::AccessDenied);
+        }
+
         // ==== We are now GOOD TO GO! ====
         // Grant the access token response.
         let parent_session_id = Some(code_xchg.session_id);
